@@ -29,7 +29,48 @@ type zpol struct {
 	Scal   map[string]string `json:"scalars,omitempty"` // acl operator keyring mesh peering
 	SvcID  string            `json:"service_identity,omitempty"`
 	NodeID string            `json:"node_identity,omitempty"`
-	Text   string            `json:"text,omitempty"`
+	// templated policy (builtin/service, builtin/node, builtin/dns ...) with its name variable
+	Tmpl     string `json:"templated_policy,omitempty"`
+	TmplName string `json:"template_name,omitempty"`
+	Text     string `json:"text,omitempty"`
+}
+
+func (p *zpol) synthetic() bool { return p.SvcID != "" || p.NodeID != "" || p.Tmpl != "" }
+
+func zvSvcIdentityRules(name string) []zrule {
+	return []zrule{
+		{Kind: "service", Name: name, Policy: "write"},
+		{Kind: "service", Name: name + "-sidecar-proxy", Policy: "write"},
+		{Kind: "service", Prefix: true, Name: "", Policy: "read"},
+		{Kind: "node", Prefix: true, Name: "", Policy: "read"},
+	}
+}
+
+func zvNodeIdentityRules(name string) []zrule {
+	return []zrule{
+		{Kind: "node", Name: name, Policy: "write"},
+		{Kind: "service", Prefix: true, Name: "", Policy: "read"},
+	}
+}
+
+// zvTemplate: the rules a builtin templated policy renders to, as documented.
+func zvTemplate(t, name string) ([]zrule, map[string]string) {
+	pre := func(kind, pol string) zrule { return zrule{Kind: kind, Prefix: true, Name: "", Policy: pol} }
+	switch t {
+	case "builtin/service":
+		return zvSvcIdentityRules(name), nil
+	case "builtin/node":
+		return zvNodeIdentityRules(name), nil
+	case "builtin/dns":
+		return []zrule{pre("node", "read"), pre("service", "read"), pre("query", "read")}, nil
+	case "builtin/nomad-server":
+		return []zrule{pre("agent", "read"), pre("node", "read"), pre("service", "write")}, map[string]string{"acl": "write"}
+	case "builtin/nomad-client":
+		return []zrule{pre("agent", "read"), pre("node", "read"), pre("service", "write"), pre("key", "read")}, nil
+	case "builtin/api-gateway":
+		return []zrule{pre("node", "read"), pre("service", "read"), {Kind: "service", Name: name, Policy: "write"}}, map[string]string{"mesh": "read"}
+	}
+	panic("reference: unknown template " + t)
 }
 
 func zvRuleText(r zrule) string {
@@ -59,25 +100,17 @@ func (p *zpol) render() string {
 	return b.String()
 }
 
-// refRules: the rules this policy contributes according to the documentation.
-func (p *zpol) refRules() []zrule {
+// refRules: the rules (and scalar rules) this policy contributes according to the documentation.
+func (p *zpol) refRules() ([]zrule, map[string]string) {
 	switch {
 	case p.SvcID != "":
-		// documented service identity template
-		return []zrule{
-			{Kind: "service", Name: p.SvcID, Policy: "write"},
-			{Kind: "service", Name: p.SvcID + "-sidecar-proxy", Policy: "write"},
-			{Kind: "service", Prefix: true, Name: "", Policy: "read"},
-			{Kind: "node", Prefix: true, Name: "", Policy: "read"},
-		}
+		return zvSvcIdentityRules(p.SvcID), nil
 	case p.NodeID != "":
-		// documented node identity template
-		return []zrule{
-			{Kind: "node", Name: p.NodeID, Policy: "write"},
-			{Kind: "service", Prefix: true, Name: "", Policy: "read"},
-		}
+		return zvNodeIdentityRules(p.NodeID), nil
+	case p.Tmpl != "":
+		return zvTemplate(p.Tmpl, p.TmplName)
 	}
-	return p.Rules
+	return p.Rules, p.Scal
 }
 
 // ---------------- reference evaluator ----------------
@@ -90,13 +123,12 @@ type zref struct {
 func zvNewRef(pols []*zpol) *zref {
 	r := &zref{rules: map[string][]zrule{}, scal: map[string][]string{}}
 	for _, p := range pols {
-		for _, x := range p.refRules() {
+		rules, scal := p.refRules()
+		for _, x := range rules {
 			r.rules[x.Kind] = append(r.rules[x.Kind], x)
 		}
-		if p.SvcID == "" && p.NodeID == "" {
-			for k, v := range p.Scal {
-				r.scal[k] = append(r.scal[k], v)
-			}
+		for k, v := range scal {
+			r.scal[k] = append(r.scal[k], v)
 		}
 	}
 	return r
